@@ -461,6 +461,63 @@ fn typed_builders_check(run: &Run) {
         case!("TypedMap<TypedArray<TypedArray<i64>>>", wirefilter::Map::from((0..n).map(|k| (key(k), (0..n).map(|_| ints()).collect::<TypedArray<'static, TypedArray<'static, i64>>>())).collect::<TypedMap<'static, TypedArray<'static, TypedArray<'static, i64>>>>()), m(a(a(Ty::Int))));
         case!("TypedMap<TypedMap<TypedMap<i64>>>", wirefilter::Map::from((0..n).map(|k| (key(k), (0..n).map(|j| (key(j), imap())).collect::<TypedMap<'static, TypedMap<'static, i64>>>())).collect::<TypedMap<'static, TypedMap<'static, TypedMap<'static, i64>>>>()), m(m(m(Ty::Int))));
     }
+    // the same builders driven through their incremental interface (new, push, extend, insert,
+    // get_mut, get_or_insert, truncate), observed through the borrowed view and after conversion
+    {
+        let ints = |v: &[i64]| V::Arr(Ty::Int, v.iter().map(|i| V::Int(*i)).collect());
+        let imapv = |v: &[(&[u8], i64)]| V::map(Ty::Int, v.iter().map(|(k, i)| (*k, V::Int(*i))).collect());
+        let mut incremental: Vec<(String, Result<(V, V), String>, V)> = Vec::new();
+        incremental.push(("TypedArray<TypedArray<i64>> built with push / get_mut / extend / truncate".into(), guarded(|| {
+            let mut aa: TypedArray<'static, TypedArray<'static, i64>> = TypedArray::new();
+            aa.push([1i64, 2].into_iter().collect());
+            aa.push(TypedArray::new());
+            aa.get_mut(1).expect("second element").push(7);
+            aa.extend([[3i64].into_iter().collect::<TypedArray<'static, i64>>(), [4i64].into_iter().collect()]);
+            aa.truncate(3);
+            let view = V::from_engine(&LhsValue::Array(aa.as_array()));
+            let conv = V::from_engine(&LhsValue::Array(wirefilter::Array::from(aa)));
+            (view, conv)
+        }), V::arr(a(Ty::Int), vec![ints(&[1, 2]), ints(&[7]), ints(&[3])])));
+        incremental.push(("TypedArray<TypedMap<i64>> built with push / get_mut / insert".into(), guarded(|| {
+            let mut am: TypedArray<'static, TypedMap<'static, i64>> = TypedArray::new();
+            am.push([(key(0), 0i64)].into_iter().collect());
+            am.get_mut(0).expect("first element").insert(key(1), 5);
+            am.push(TypedMap::new());
+            let view = V::from_engine(&LhsValue::Array(am.as_array()));
+            let conv = V::from_engine(&LhsValue::Array(wirefilter::Array::from(am)));
+            (view, conv)
+        }), V::arr(m(Ty::Int), vec![imapv(&[(b"k0", 0), (b"k1", 5)]), imapv(&[])])));
+        incremental.push(("TypedMap<TypedArray<i64>> built with get_or_insert / get_mut / push".into(), guarded(|| {
+            let mut ma: TypedMap<'static, TypedArray<'static, i64>> = TypedMap::new();
+            ma.get_or_insert(key(0), TypedArray::new()).push(4);
+            ma.get_or_insert(key(0), [9i64].into_iter().collect()).push(5);
+            ma.get_mut(b"k0").expect("present key").push(6);
+            ma.insert(key(1), TypedArray::new());
+            let view = V::from_engine(&LhsValue::Map(ma.as_map()));
+            let conv = V::from_engine(&LhsValue::Map(wirefilter::Map::from(ma)));
+            (view, conv)
+        }), V::map(a(Ty::Int), vec![(b"k0", ints(&[4, 5, 6])), (b"k1", ints(&[]))])));
+        incremental.push(("TypedMap<TypedMap<i64>> built with get_or_insert / get_mut / insert".into(), guarded(|| {
+            let mut mm: TypedMap<'static, TypedMap<'static, i64>> = TypedMap::new();
+            mm.get_or_insert(key(0), TypedMap::new()).insert(key(1), 1);
+            mm.get_mut(b"k0").expect("present key").insert(key(2), 2);
+            mm.get_or_insert(key(0), [(key(9), 9i64)].into_iter().collect()).insert(key(3), 3);
+            let view = V::from_engine(&LhsValue::Map(mm.as_map()));
+            let conv = V::from_engine(&LhsValue::Map(wirefilter::Map::from(mm)));
+            (view, conv)
+        }), V::map(m(Ty::Int), vec![(b"k0", imapv(&[(b"k1", 1), (b"k2", 2), (b"k3", 3)]))])));
+        for (what, got, want) in incremental {
+            run.eval(1);
+            run.count("typed_builder_cases", 1);
+            if got != Ok((want.clone(), want.clone())) {
+                run.violation(
+                    format!("{ID}:typed-builder:{what}"),
+                    format!("{what}: borrowed view / converted value {:?}, reference {}", got.as_ref().map(|(x, y)| (x.short(), y.short())), want.short()),
+                    json!({"kind": "c08-builder", "typed": what}),
+                );
+            }
+        }
+    }
     for (what, value, want_ty) in &cases {
         run.eval(1);
         run.count("typed_builder_cases", 1);
@@ -507,7 +564,10 @@ pub fn run(tier: Tier, seed: u64) -> i32 {
     let max_depth = tier.pick(5usize, 64usize);
     let init: State = vec![MC { sch: 0, vals: [None, None, None, None] }];
     let mut seen: HashMap<String, ()> = HashMap::new();
-    let mut frontier: Vec<State> = vec![init.clone()];
+    // a frontier state carries the history that first reached it: its contexts are obtained by
+    // replaying that history on live contexts from the initial state, not by constructing contexts
+    // that merely hold the state's values
+    let mut frontier: Vec<(State, Vec<Op>)> = vec![(init.clone(), vec![])];
     {
         let real = w.build(&init);
         let mut p = Vec::new();
@@ -524,16 +584,24 @@ pub fn run(tier: Tier, seed: u64) -> i32 {
             break;
         }
         depth_reached = depth;
-        let out: Mutex<Vec<(State, String, bool)>> = Mutex::new(Vec::new());
+        let out: Mutex<Vec<((State, Vec<Op>), String, bool)>> = Mutex::new(Vec::new());
         let fr = &frontier;
         par_for(fr.len(), ncpu(), |fi| {
             // each worker thread parses its own filters (compiled filters are Sync, but cheap to share): use the shared world
-            let base = &fr[fi];
+            let base = &fr[fi].0;
+            let path = &fr[fi].1;
             let mut local = Vec::new();
             for op in ops_for(base) {
                 let mut st = base.clone();
-                let mut real = w.build(base);
                 let r = guarded(|| {
+                    let mut real = w.build(&init);
+                    let mut replayed = init.clone();
+                    for past in path {
+                        let _ = step(&w, &mut real, &mut replayed, past);
+                    }
+                    if replayed != *base {
+                        return (vec![format!("replaying the history {path:?} gives the reference state {}, not {}", short_state(&replayed), short_state(base))], String::new());
+                    }
                     let mut problems = step(&w, &mut real, &mut st, &op);
                     let key = observe(&w, &real, &st, &mut problems);
                     (problems, key)
@@ -541,28 +609,30 @@ pub fn run(tier: Tier, seed: u64) -> i32 {
                 match r {
                     Err(p) => run.violation(
                         format!("{ID}:panic:{op:?}"),
-                        format!("from state {base:?}: {op:?} panicked: {p}"),
-                        json!({"kind": "c08-step", "state": base, "op": op}),
+                        format!("after {path:?} (state {base:?}): {op:?} panicked: {p}"),
+                        json!({"kind": "c08-step", "state": base, "history": path, "op": op}),
                     ),
                     Ok((problems, key)) => {
                         let failed = problems.is_empty() && st == *base && matches!(op, Op::Set { .. } | Op::SetByName { .. });
                         for p in problems {
                             run.violation(
                                 format!("{ID}:step:{op:?}:{p}"),
-                                format!("from state {}: {op:?}: {p}", short_state(base)),
-                                json!({"kind": "c08-step", "state": base, "op": op, "what": p}),
+                                format!("after {path:?} (state {}): {op:?}: {p}", short_state(base)),
+                                json!({"kind": "c08-step", "state": base, "history": path, "op": op, "what": p}),
                             );
                         }
-                        local.push((st, key, failed));
+                        let mut np = path.clone();
+                        np.push(op.clone());
+                        local.push(((st, np), key, failed));
                     }
                 }
             }
             out.lock().unwrap().extend(local);
         });
         let mut res = out.into_inner().unwrap();
-        res.sort_by(|a, b| a.0.cmp(&b.0).then(a.1.cmp(&b.1)));
+        res.sort_by(|a, b| a.0.0.cmp(&b.0.0).then(a.1.cmp(&b.1)).then(format!("{:?}", a.0.1).cmp(&format!("{:?}", b.0.1))));
         let mut next = Vec::new();
-        for (st, key, failed) in res {
+        for ((st, np), key, failed) in res {
             transitions += 1;
             if failed {
                 failed_sets += 1;
@@ -573,7 +643,7 @@ pub fn run(tier: Tier, seed: u64) -> i32 {
                 if states % 1500 == 2 {
                     run.sample(8, || json!({"state": short_state(&st), "observed_key": key}));
                 }
-                next.push(st);
+                next.push((st, np));
             }
         }
         run.note(format!("depth {depth}: {} new states, {transitions} transitions", next.len()));
@@ -589,7 +659,7 @@ pub fn run(tier: Tier, seed: u64) -> i32 {
     run.sample(8, || json!({"op": "Set{c:0,f:2,v:2,via:0}", "meaning": "ctx0.set_field_value(a, [\"a\"]: Array(Bytes)) must fail and change nothing"}));
     run.finish(
         states,
-        "explicit-state BFS over {set by field ref of 3 schemes, set by name, clear, clone_with, new context on the twin scheme, take_with, borrow_with{1-2 sets}drop, drop}; every transition executed on real contexts rebuilt from the state, every field read back, every filter / value expression of all three schemes executed on every context, equality and serialisation compared with the reference map; builders over ill-typed element pools",
+        "explicit-state BFS over {set by field ref of 3 schemes, set by name, clear, clone_with, new context on the twin scheme, take_with, borrow_with{1-2 sets}drop, drop}; every transition executed on live contexts brought to the state by replaying the history that first reached it, every field read back, every filter / value expression of all three schemes executed on every context, equality and serialisation compared with the reference map; builders over ill-typed element pools",
         fixpoint,
         &[("states", 50), ("failed_sets_leaving_state_unchanged", 100), ("builder_cases", 1000)],
     )
